@@ -97,6 +97,10 @@ let run_c04 path =
         | [h; v] -> let o = Trie.OAdd (bytes_of_hex h, n_of_string v) in (Trie.apply_trie t o, TreeSpec.apply_spec m o)
         | _ -> failwith "bad entry") (Trie.coq_New, []) entries in
       Hashtbl.replace sets k st
+    | "hset" :: k :: ops ->
+      (* a set reached through a history; the stored set is what the map specification says *)
+      let st = L.fold_left (fun (t, m) o -> let o = op_of_s o in (Trie.apply_trie t o, TreeSpec.apply_spec m o)) (Trie.coq_New, []) ops in
+      Hashtbl.replace sets k st
     | ["q"; k; h; m; mf; s; sf] ->
       let (t, sp) = Hashtbl.find sets k in
       let topic = bytes_of_hex h in
